@@ -31,12 +31,12 @@ type fiatAlg struct {
 	valOf map[ssa.Value]linF
 	eqs   []linF
 	// cmov bookkeeping: alloc -> (sel, z, nz)
-	cmov    map[*ssa.Alloc][3]ssa.Value
-	undec   []string
-	calls   []*ssa.Call
-	rng      map[ssa.Value]ival
-	carryRng map[*ssa.Call]ival
-	v64memo  map[ssa.Value]map[int]uint64
+	cmov                     map[*ssa.Alloc][3]ssa.Value
+	undec                    []string
+	calls                    []*ssa.Call
+	rng                      map[ssa.Value]ival
+	carryRng                 map[*ssa.Call]ival
+	v64memo                  map[ssa.Value]map[int]uint64
 	droppedZero, droppedFree int
 }
 
